@@ -38,6 +38,7 @@ import (
 	"os/exec"
 	"path/filepath"
 	"regexp"
+	"runtime"
 	"runtime/debug"
 	"strconv"
 	"strings"
@@ -343,10 +344,15 @@ func vC02RunIndexSchedule(srv *vksServer, scn *vC02Scn, reset map[string]interfa
 	return putStatus, entries
 }
 
-func vC02WaitQuiet() bool {
+// vC02WaitQuiet waits until the request has left nothing running: no call of a write-path method is in
+// progress (counters kept by verifEnter/verifExit) AND the number of goroutines is back to what it was
+// before the request (base) - a writer goroutine that putWithPipe has started but that has not entered
+// WriteBlock yet is not visible in the counters.
+func vC02WaitQuiet(base int) bool {
 	deadline := time.Now().Add(30 * time.Second)
 	for time.Now().Before(deadline) {
-		if vHookActive("WriteBlock") == 0 && vHookActive("Touch") == 0 && vHookActive("Compare") == 0 {
+		if vHookActive("WriteBlock") == 0 && vHookActive("Touch") == 0 && vHookActive("Compare") == 0 &&
+			runtime.NumGoroutine() <= base {
 			return true
 		}
 		time.Sleep(200 * time.Microsecond)
@@ -527,11 +533,12 @@ func TestVerifC02(t *testing.T) {
 			vHook.mu.Unlock()
 			if scn.Mode == "index" {
 				os.MkdirAll(filepath.Join(srv.roots[0], hash[:3]), 0755) // the model's IndexTo finds the block directory
+				base := runtime.NumGoroutine()
 				st, entries := vC02RunIndexSchedule(srv, scn, reset)
 				reset["reached"] = true
 				log(map[string]interface{}{"ev": "outcome", "kind": "reply", "st": st})
 				log(map[string]interface{}{"ev": "indexduring", "entries": entries})
-				if !vC02WaitQuiet() {
+				if !vC02WaitQuiet(base) {
 					reset["infra"] = "writer goroutine did not finish"
 				}
 				vHookReset()
@@ -545,6 +552,7 @@ func TestVerifC02(t *testing.T) {
 			req, _ := http.NewRequest("PUT", "/"+hash, bytes.NewReader(block))
 			req = req.WithContext(context.Background())
 			req.Header.Set("Authorization", "OAuth2 "+vksSysToken)
+			base := runtime.NumGoroutine()
 			srv.h.ServeHTTP(rec, req)
 			vHook.mu.Lock()
 			reached := scn.Mode == "none" || vHook.seen[scn.Point] >= scn.Occ
@@ -556,7 +564,7 @@ func TestVerifC02(t *testing.T) {
 			}
 			reset["labels"] = labels
 			log(map[string]interface{}{"ev": "outcome", "kind": "reply", "st": rec.Code})
-			if !vC02WaitQuiet() {
+			if !vC02WaitQuiet(base) {
 				reset["infra"] = "writer goroutine did not finish"
 			}
 			vHookReset()
